@@ -103,6 +103,8 @@ def main(pid, tier, jobs=None):
         problems.append('stub validation failed: %s' % vres['failures'][:3])
 
     # 2. exploration
+    if hasattr(mod, 'setup'):
+        mod.setup(True)
     structures = mod.structures(tier)
     opts = dict(getattr(mod, 'EXPLORE_OPTS', {}))
     opts.update(getattr(mod, 'EXPLORE_OPTS_TIER', {}).get(tier, {}))
